@@ -108,7 +108,7 @@ def nontrivial(r: CaseResult) -> bool:
 def spec() -> Spec:
     return Spec(
         pid=PID,
-        proof_modules=["EphVerif.Proofs.C13"],
+        proof_modules=["EphVerif.Proofs.C13", "EphVerif.Proofs.SystemMessaging"],
         driver="drv_c13",
         harness=base.harness,
         generate=generate,
